@@ -6,6 +6,8 @@ driver for the framer clock model (engine `floclock`, C11)
   `runf <P> <start> <nticks> <nframes> frame*`   τ = Float  (the instance is entered at tick <start>), every number is the 16 hex digit bit pattern
   `runi <P> <start> <nticks> <nframes> frame*`   τ = Int   (exact time in units of a quantum), decimal integers
     frame := `<over idx|-> <nverbs> verb*`      (`frame Fi in Fover`)
+  `runfb` / `runib` `<P> <B> <start> <nticks> …`, `runfqb` / `runiqb` `<P> <B> <Q> <nticks> …`: the Skedder starts at
+    store stamp B (`Skedder(stamp=B)`)
   `runfq` / `runiq` `<P> <Q> <nticks> …`: the framer has period Q (`framer rd be active at Q`), started at tick 0;
     a tick in which the skedder does not run it shows its unchanged state with `.`
   after the frames: `H <nframes> frame* <ndone> <frame idx>*`   the helper framer of `aux helper if …` and its
@@ -124,8 +126,9 @@ def fillTicks {τ : Type} : List τ → List Bool → List (Obs τ) → Option (
   | _, _, _, _ => []
 
 def runLine {τ : Type} [Add τ] [Sub τ] [LE τ] [LT τ] [DecidableLE τ] [DecidableLT τ] [OfNat τ 0] [Lit τ]
-    (withQ : Bool) (num : P τ) (sh : τ → String) (ts : List String) : Option String := do
+    (withQ withB : Bool) (num : P τ) (sh : τ → String) (ts : List String) : Option String := do
   let (per, r) ← num ts
+  let (base, r) ← (if withB then num r else some (0, r))
   let (q, r) ← (if withQ then num r else some (per, r))
   let (start, r) ← (if withQ then some (0, r) else nat r)
   let (nticks, r) ← nat r
@@ -142,17 +145,21 @@ def runLine {τ : Type} [Add τ] [Sub τ] [LE τ] [LT τ] [DecidableLE τ] [Deci
     if !(oversOk (prog.map SFrame.toR)) || !(oversOk hfr) then none
     if suspCount prog > 1 || (suspCount prog = 1 && hfr.isEmpty) then none
     if withQ then
-      let obs := runG (decideS prog ⟨hfr, dn⟩) {} (framerStamps per q nticks)
-      return " ".intercalate ((fillTicks (stamps per nticks) (runsAt per q nticks 0 0) obs none).map (showObs sh))
-    return " ".intercalate ((runG (decideS prog ⟨hfr, dn⟩) {} (stampsFrom per start nticks)).map (showObs sh))
+      let obs := runG (decideS prog ⟨hfr, dn⟩) {} (framerStampsB base per q nticks)
+      return " ".intercalate ((fillTicks (stampsB base per nticks) (runsAt per q nticks base base) obs none).map (showObs sh))
+    return " ".intercalate ((runG (decideS prog ⟨hfr, dn⟩) {} (stampsFromB base per start nticks)).map (showObs sh))
   | _, _ => return "ERR build"
 
 def step (_ : Unit) (line : String) : Unit × String :=
   match words line with
-  | "runfq" :: ts => ((), (runLine true floatP (fun x => natToHex 16 x.toBits.toNat) ts).getD "bad-op")
-  | "runiq" :: ts => ((), (runLine true intP (fun (x : Int) => toString x) ts).getD "bad-op")
-  | "runf" :: ts => ((), (runLine false floatP (fun x => natToHex 16 x.toBits.toNat) ts).getD "bad-op")
-  | "runi" :: ts => ((), (runLine false intP (fun (x : Int) => toString x) ts).getD "bad-op")
+  | "runfb" :: ts => ((), (runLine false true floatP (fun x => natToHex 16 x.toBits.toNat) ts).getD "bad-op")
+  | "runib" :: ts => ((), (runLine false true intP (fun (x : Int) => toString x) ts).getD "bad-op")
+  | "runfqb" :: ts => ((), (runLine true true floatP (fun x => natToHex 16 x.toBits.toNat) ts).getD "bad-op")
+  | "runiqb" :: ts => ((), (runLine true true intP (fun (x : Int) => toString x) ts).getD "bad-op")
+  | "runfq" :: ts => ((), (runLine true false floatP (fun x => natToHex 16 x.toBits.toNat) ts).getD "bad-op")
+  | "runiq" :: ts => ((), (runLine true false intP (fun (x : Int) => toString x) ts).getD "bad-op")
+  | "runf" :: ts => ((), (runLine false false floatP (fun x => natToHex 16 x.toBits.toNat) ts).getD "bad-op")
+  | "runi" :: ts => ((), (runLine false false intP (fun (x : Int) => toString x) ts).getD "bad-op")
   | _ => ((), "bad-op")
 
 end Ioflo.Drv.FloClock
